@@ -14,14 +14,25 @@ PROFILES = {
     "loop": dict(features={"arith", "loop", "storage", "mem"}, nstmts=(1, 2), depth=1),
     "call": dict(features={"arith", "call", "storage", "mem", "env"}, nstmts=(1, 3), depth=1),
     "create": dict(features={"arith", "create", "mem", "env"}, nstmts=(1, 2), depth=1),
+    # profiles added after the seeded-change campaign (see DESIGN.md, section 11)
+    "opgrid": dict(features=set(), nstmts=(5, 8), depth=0),
+    "symtarget": dict(features={"arith", "symcall", "call", "mem"}, nstmts=(1, 3), depth=1, branchy=0.3),
+    "valuecall": dict(features={"arith", "valuecall", "call", "branch", "mem"}, nstmts=(1, 3), depth=1, branchy=0.3),
+    "callfail": dict(features={"arith", "callfail", "call", "storage"}, nstmts=(1, 3), depth=1, branchy=0.8),
 }
 
 
 def make(rng, profile, options=None, nargs=2):
     prof = PROFILES[profile]
-    pool_codes = progen.callee_pool(rng, len(POOL_ADDRS)) if "call" in prof["features"] else []
+    if "branchy" in prof:
+        pool_codes = progen.callee_pool(rng, len(POOL_ADDRS), branchy=prof["branchy"])
+    else:
+        pool_codes = progen.callee_pool(rng, len(POOL_ADDRS)) if "call" in prof["features"] else []
     g = progen.Gen(rng, nargs=nargs, features=prof["features"], pool=POOL_ADDRS if pool_codes else [])
-    items = g.program(nstmts=rng.randrange(*prof["nstmts"]) if prof["nstmts"][0] < prof["nstmts"][1] else prof["nstmts"][0], depth=prof["depth"])
+    if profile == "opgrid":
+        items = progen.opgrid_program(rng, nargs=nargs, nops=rng.randrange(*prof["nstmts"]))
+    else:
+        items = g.program(nstmts=rng.randrange(*prof["nstmts"]) if prof["nstmts"][0] < prof["nstmts"][1] else prof["nstmts"][0], depth=prof["depth"])
     code = asm.assemble(items)
     accounts = {THIS: {"code": code}}
     for a, c in zip(POOL_ADDRS, pool_codes):
